@@ -218,14 +218,18 @@ Definition object_field (bs : list N) : pres (list N) :=
   POk r3 s.
 
 Definition LAST : list N := [108; 97; 115; 116].
+(* after the fix: `last - n` reads n as an i64 and the offset is -n if that is an i32 (checked_neg, i32::try_from),
+   otherwise this alternative fails; it was an i32 with saturating_neg, which rejected `last-2147483648` *)
 Definition saturating_neg (v : Z) : Z := if (v =? -2147483648)%Z then 2147483647%Z else (- v)%Z.
+Definition last_minus (v : Z) : option Z :=
+  if (v =? - two63)%Z then None
+  else if ((-2147483648 <=? - v) && (- v <=? 2147483647))%Z then Some (- v)%Z else None.
 Definition pindex (bs : list N) : pres index :=
   palt (pmap IIndex (pi32 bs)) (fun _ =>
   palt (pdo (r1, _) <- ptag_no_case LAST bs;
         pdo (r2, _) <- pchar 45 (multispace0 r1);
         pdo (r3, v) <- pi64 (multispace0 r2);
-        (* map_res: checked_neg, then i32::try_from (after the fix; was i32 + saturating_neg) *)
-        if ((-2147483648 <=? - v) && (- v <=? 2147483647))%Z then POk r3 (ILast (- v)%Z) else PErr) (fun _ =>
+        match last_minus v with Some n => POk r3 (ILast n) | None => PErr end) (fun _ =>
   palt (pdo (r1, _) <- ptag_no_case LAST bs;
         pdo (r2, _) <- pchar 43 (multispace0 r1);
         pdo (r3, v) <- pi32 (multispace0 r2);
